@@ -70,7 +70,10 @@ pub fn check_transfer_success(sc: &Scenario, tr: &Trace, put: usize) -> Result<(
         }
     }
     let sf = tr.finished_inds(p.from, id);
+    // an unacknowledged sender without closure has no feedback: it ends on EOF and cannot report the outcome
+    let sender_knows = !p.unack || sc.entities[p.from].cfg.closure;
     match sf.first() {
+        _ if !sender_knows => {}
         None => return Err(fail("sender-no-finished", "the sender never reported Finished".into())),
         Some((_, f)) => {
             let ok = if p.file.is_some() {
